@@ -335,6 +335,51 @@ func runC03(c *mon.Ctx) {
 		c.Class("history:zero-copy-reader")
 	}
 
+	// A read fault reported by the HashReader (even together with a full-length slice) must surface as
+	// an error; a proof computed from the garbage must never be returned as if it were genuine.
+	if c.Batch%4 == 1 {
+		for k := 0; k < c.Scale(300, 3000); k++ {
+			t := 2 + r.IntN(T-1)
+			n := r.IntN(t)
+			id := fmt.Sprintf("readfault:%d:%d:%d", t, n, k)
+			// poison one of the indexes the honest proof actually reads
+			var asked []int64
+			tlog.ProveRecord(int64(t), int64(n), tlog.HashReaderFunc(func(ix []int64) ([]tlog.Hash, error) {
+				asked = append(asked, ix...)
+				out := make([]tlog.Hash, len(ix))
+				for i, x := range ix {
+					out[i] = st[x]
+				}
+				return out, nil
+			}))
+			if len(asked) == 0 {
+				continue
+			}
+			bad := asked[r.IntN(len(asked))]
+			c.Eval(2)
+			if p, err := tlog.ProveRecord(int64(t), int64(n), faultyReader(st, bad)); err == nil && !hashesEqual(p, ref.Path(n, t)) {
+				c.Violation("proof-returned-despite-read-error", id, map[string]any{"fn": "ProveRecord", "t": t, "n": n, "poisoned_index": bad})
+			}
+			m := 1 + r.IntN(t)
+			asked = asked[:0]
+			tlog.ProveTree(int64(t), int64(m), tlog.HashReaderFunc(func(ix []int64) ([]tlog.Hash, error) {
+				asked = append(asked, ix...)
+				out := make([]tlog.Hash, len(ix))
+				for i, x := range ix {
+					out[i] = st[x]
+				}
+				return out, nil
+			}))
+			if len(asked) > 0 {
+				bad = asked[r.IntN(len(asked))]
+				if p, err := tlog.ProveTree(int64(t), int64(m), faultyReader(st, bad)); err == nil && !hashesEqual(p, ref.Proof(m, t)) {
+					c.Violation("proof-returned-despite-read-error", id, map[string]any{"fn": "ProveTree", "t": t, "n": m, "poisoned_index": bad})
+				}
+			}
+		}
+		c.Class("read-fault:error-propagated-or-proof-correct")
+	}
+
 	// Provers must refuse out-of-range arguments with an error, not a crash.
 	if c.Batch == 0 {
 		rd := &storeReader{store: st, limit: -1}
